@@ -256,7 +256,12 @@ func refEncodePacket(p *astits.Packet) []byte {
 
 // ---------- cases ----------
 
+var c11Judged, c11Reemit int
+
 func (c11) Gen(r *Rng, tier string, emit func(string, Tok)) {
+	defer func() {
+		note("packets judged against the ISO reference encoder (write + parse back): %d; conformant packets re-emitted byte-identically: %d", c11Judged, c11Reemit)
+	}()
 	scale := 1
 	if tier == "thorough" {
 		scale = 10
@@ -300,7 +305,7 @@ func (c11) Gen(r *Rng, tier string, emit func(string, Tok)) {
 		p := genPacket(r)
 		ref := refEncodePacket(p)
 		emit("wf-parse", L(I(1), B(ref)))
-		emit("wf-write", L(I(2), ToTok(p), I(188)))
+		emit("wf-write", L(I(2), ToTok(*p), I(188)))
 		if k%3 == 0 {
 			emit("wf-reemit", L(I(3), B(ref)))
 		}
@@ -369,7 +374,7 @@ func (c11) Gen(r *Rng, tier string, emit func(string, Tok)) {
 		case 6:
 			p.Header.HasPayload = !p.Header.HasPayload
 		}
-		emit("write-any", L(I(2), ToTok(p), I(target)))
+		emit("write-any", L(I(2), ToTok(*p), I(target)))
 	}
 	// PCR / OPCR / DTS at every single-bit value and all-ones
 	for bit := 0; bit <= 33; bit++ {
@@ -389,7 +394,7 @@ func (c11) Gen(r *Rng, tier string, emit func(string, Tok)) {
 					HasSeamlessSplice: true, SpliceType: uint8(bit & 15), DTSNextAccessUnit: &astits.ClockReference{Base: base}, Length: 6}}
 			p.AdaptationField = af
 			p.Payload = r.Bytes(184 - afBytes(af))
-			emit("clock-bits", L(I(2), ToTok(p), I(188)))
+			emit("clock-bits", L(I(2), ToTok(*p), I(188)))
 			emit("clock-bits", L(I(3), B(refEncodePacket(p))))
 		}
 	}
@@ -502,6 +507,7 @@ func (c11) Oracle(c Tok, obs Tok) string {
 			return ""
 		}
 		ref := refEncodePacket(&p)
+		c11Judged++
 		if obs.At(0).Int() != 0 {
 			return "writePacket rejects a well-formed packet that fills 188 bytes"
 		}
@@ -528,6 +534,7 @@ func (c11) Oracle(c Tok, obs Tok) string {
 			return ""
 		}
 		w := obs.At(2)
+		c11Reemit++
 		if w.At(0).Int() != 0 || !eqBytes(w.At(1).Bytes(), in) {
 			return fmt.Sprintf("conformant packet is not re-emitted byte-identically: in %x out %s", in, w.String())
 		}
